@@ -264,6 +264,19 @@ func c09Final(w *SrvWorld) *Violation {
 		}
 	}
 	for _, g := range w.GoAways {
+		if g.Code == 5 && strings.HasSuffix(label, "/data-after-end-stream") {
+			// DATA after END_STREAM is a stream error only while the stream is half-closed (remote); once the server has
+			// finished its response the stream is closed and the same frame is a connection error (RFC 7540 5.1)
+			legit := false
+			for _, l := range w.lanes {
+				if l.lane.Offender != "" && l.id != 0 && w.EndedBeforeGoAway[l.id] {
+					legit = true
+				}
+			}
+			if legit {
+				return nil
+			}
+		}
 		if g.Code != 0 {
 			return &Violation{Property: "C09", Rule: "connection-torn-down", Sig: fmt.Sprintf("%s/goaway-code=%d", label, g.Code),
 				Detail: fmt.Sprintf("GOAWAY(last=%d, code=%d, %.120q) after the stream-scoped offence %s", g.LastStream, g.Code, g.Debug, label)}
